@@ -58,6 +58,14 @@ CLAIMS = {
          "Theorems C18_*: fresh, emptied and default-constructed vectors have size 0, data_end()=data_begin(), no uninitialised slot is consulted (model reads of unwritten slots would yield -1 offsets and disagree), clear keeps them empty. "
          "Tie: family of default-constructed / zero-capacity / never-filled / emptied-three-ways vectors under alternating junk fills, followed by reserve+emplace_back.",
          "5 C18"),
+ "C13": ("proof (laws of == for every list and arbitrary memory; field equality = content equality) + correspondence under alternating junk with a content oracle",
+         "Theorems C13_*: vector and reference == are reflexive and symmetric for every parameter list and ARBITRARY memory contents (hence every junk fill, capacity, allocator); != is the negation; a field compared object-wise is equal iff it holds the same objects (number included). "
+         "PARTIAL: that the byte-wise compared runs / buffers decide exactly content equality (no padding inside a run, at most one span per run) is not yet a theorem; it is decided by the tie: related vectors (equal / one object differs / strict prefix / longer / empty / different fixed sizes) built under different junk fills, capacities, histories and allocators, every operator on every pair of vectors and of elements, against the model and against a content oracle; the model's run tables and padding-free flag are compared with the library's constexpr tables for every instantiated list.",
+         "5 C13"),
+ "C14": ("proof (strict-partial-order laws of element <, irreflexivity of vector <, derived operators) + refutation witness (known finding) + correspondence with a law-checking oracle",
+         "Theorems C14_*: for every parameter list and arbitrary memory the element-level < is irreflexive, asymmetric and transitive; vector < is irreflexive; > <= >= are derived as stated; field order is a strict weak order. C14_vector_less_transitive_refuted: vm_compute witness that vector < is not transitive (element < is a product order over the compared runs) = known finding less-product-order. "
+         "Tie: all six operators on pairs of vectors/elements over a 2-3 value domain; oracle checks the laws on the implementation's own results (irreflexive, asymmetric, transitive, consistent with ==, content-only, vector < = lexicographical_compare under the observed element <).",
+         "5 C14"),
 }
 
 checks = []
